@@ -49,7 +49,7 @@ pub struct VarDesc {
     /// how a read value is consumed (0: kept in memory, 1: left on the stack) and how shift
     /// amounts are written (bit 1 set: computed as byteOffset * 8 instead of a literal)
     pub style:    usize,
-    /// where written values come from: 0 calldata, 1 TIMESTAMP, 2 NUMBER, 3 CALLER, 4 CALLVALUE
+    /// where written values come from: 0 calldata, 1 TIMESTAMP, 2 NUMBER, 3 CALLER, 4 CALLVALUE, 5 CALLDATASIZE
     pub src:      usize,
     /// packed writes move the value into place by multiplying with 2^offset instead of shifting left
     pub wmul:     bool,
@@ -156,6 +156,7 @@ fn value_source(src: usize, at: u8) -> Vec<Item> {
         2 => vec![Item::Op(0x43)],
         3 => vec![Item::Op(0x33)],
         4 => vec![Item::Op(0x34)],
+        5 => vec![Item::Op(0x36)],
         _ => calldata(at),
     }
 }
@@ -464,7 +465,7 @@ fn random_var_raw(rng: &mut StdRng, used: &mut Vec<[u8; 32]>) -> VarDesc {
         fields: if kind == Kind::Packed { random_fields(rng) } else { vec![] },
         access: (*["r", "w", "rw", "rw"].choose(rng).unwrap()).to_string(),
         style: rng.gen_range(0..4),
-        src: *[0usize, 0, 0, 1, 2, 3, 4].choose(rng).unwrap(),
+        src: *[0usize, 0, 0, 1, 2, 3, 4, 5].choose(rng).unwrap(),
         wmul: kind == Kind::Packed && rng.gen_bool(0.4),
         top_w: kind == Kind::Packed && rng.gen_bool(0.25),
         wall: if kind == Kind::Packed { *[0usize, 0, 1, 2].choose(rng).unwrap() } else { 0 },
